@@ -29,6 +29,9 @@ def jobs(tier, seed):
             js.append({"label": f"{spec[0]}{spec[1]}|all-orders", "wl": spec, "budget": {}})
         for spec in CANCEL:
             js.append({"label": f"{spec[0]}{spec[1]}|cancel1", "wl": spec, "budget": {"cancel": 1}})
+        for spec in [wl("chain3"), wl("multitask"), wl("fail_mid"), wl("poll", 1)]:
+            js.append({"label": f"{spec[0]}{spec[1]}|pause1,unpause1", "wl": spec, "budget": {"pause": 1, "unpause": 1}})
+
     else:
         for spec in SMALL + BIG:
             js.append({"label": f"{spec[0]}{spec[1]}|noack1", "wl": spec, "budget": {"noack": 1}, "max_states": 300000})
